@@ -31,11 +31,9 @@ func init() {
 		{Pkg: "encoding/json", Func: "Unmarshal", Oracle: true, OutParams: []string{"v"}},
 		{Pkg: "os", Func: "ReadFile", Oracle: true},
 		{Pkg: "path/filepath", Func: "Join", Oracle: true},
-		{Pkg: "errors", Func: "Is", Oracle: true},
-		{Pkg: "io/fs", Func: "errNotExist", Oracle: true},
 		{Pkg: ".../internal/file", Func: "WriteFile", Oracle: true},
 		{Pkg: crl, Func: "(*FileCache).fileName"},
 		{Pkg: crl, Func: "(*FileCache).Set"},
-		{Pkg: crl, Func: "(*FileCache).Get"},
+		{Pkg: crl, Func: "(*FileCache).Get", NilIsEmpty: true},
 	})
 }
